@@ -147,6 +147,29 @@ func forcedCases(thorough bool) []*Case {
 				lk(1, 0, m2, false), ul(1, false, false))
 		}
 	}
+	// lock.Context: the holder's release and the end of the parked waiter's context back to back, in
+	// both orders, 0–50 µs apart, on all processors and on one: whichever way the waiter's select
+	// goes, an error return must leave the lock free and a grant must be a real grant
+	reps := 1
+	if thorough {
+		reps = 6
+	}
+	for rep := 0; rep < reps; rep++ {
+		for _, hm := range []string{"w", "r"} {
+			for _, wm := range []string{"w", "r"} {
+				for _, order := range []string{"uc", "cu"} {
+					for _, us := range []int{0, 1, 3, 10, 50} {
+						for _, procs := range []int{0, 1} {
+							c := &Case{Prim: "context", N: 3, Keys: 1, Family: "release-racing-cancel", Procs: procs, Steps: []Step{
+								lk(0, 0, hm, false), lk(1, 0, wm, false), {Do: "race", T: 1, K: 0, Md: order, Us: us + rep},
+								ul(1, false, false), lk(2, 0, "w", false), ul(2, false, false)}}
+							cs = append(cs, c)
+						}
+					}
+				}
+			}
+		}
+	}
 	// lock.Context token queue: several parked waiters, one in the middle leaves, the rest are
 	// served in arrival order (checked by trace inclusion against the queue of the model)
 	for _, p := range perms(3) {
